@@ -273,6 +273,30 @@ func contextOf(info *types.Info, pm map[ast.Node]ast.Node, n ast.Node, stop ast.
 	for cur := pm[n]; cur != nil && cur != stop; child, cur = cur, pm[cur] {
 		switch x := cur.(type) {
 		case *ast.CaseClause:
+			// a case of a tagless switch is a condition like any other: this case's
+			// expressions hold (one of them), every earlier case's do not
+			if blk, ok := pm[x].(*ast.BlockStmt); ok {
+				if sw, ok := pm[blk].(*ast.SwitchStmt); ok && sw.Tag == nil {
+					if len(x.List) == 1 {
+						guards = append(guards, polarStr(info, x.List[0], true))
+					} else if len(x.List) > 1 {
+						var alts []string
+						for _, e := range x.List {
+							alts = append(alts, polarStr(info, e, true))
+						}
+						guards = append(guards, "("+strings.Join(alts, " || ")+")")
+					}
+					for _, st := range sw.Body.List {
+						prev := st.(*ast.CaseClause)
+						if prev == x {
+							break
+						}
+						for _, e := range prev.List {
+							guards = append(guards, polarStr(info, e, false))
+						}
+					}
+				}
+			}
 			var ls []string
 			for _, e := range x.List {
 				if s, ok := constString(info, e); ok {
@@ -502,7 +526,7 @@ func runC04(c *Ctx) {
 		fl := p.NewFlow(cq)
 		lits := fl.Find(func(n ast.Node) bool {
 			cl, ok := n.(*ast.CompositeLit)
-			return ok && typeQName(info.TypeOf(cl)) == "internal/checks.Problem"
+			return ok && typeQName(info.TypeOf(cl)) == "internal/checks.Problem" && len(cl.Elts) > 0
 		})
 		c.Check(len(lits) == 1, "C04-R4", "checkQueryLabels:one problem site", cq.Decl.Pos(), "one", itoa(len(lits))+" problem literals")
 		for _, l := range lits {
